@@ -22,7 +22,7 @@ pub type WorkerId = u32;
 #[verifier::external_body] pub struct ClientSession { _p: () }
 #[verifier::external_body] pub struct RequestId { _p: () }
 
-// HashMap<RequestId, TaskId> as a mathematical map; `retain(|_, v| *v != t)` keeps exactly the entries whose value differs
+// HashMap<RequestId, TaskId> as a mathematical map
 #[verifier::external_body]
 #[verifier::reject_recursive_types(K)]
 #[verifier::reject_recursive_types(V)]
@@ -31,11 +31,15 @@ impl<K, V> HashMap<K, V> {
     pub uninterp spec fn view(&self) -> Map<K, V>;
 }
 impl<K> HashMap<K, TaskId> {
+    // `retain(|_, v| <predicate on *v>)` (closure with a `&mut` parameter, outside Verus): std semantics — exactly the
+    // entries whose value satisfies the predicate stay, with their values. The predicate itself is the REAL text
+    // (captured by the regex substitution and passed as a spec closure).
     #[verifier::external_body]
-    pub fn verif_retain_ne(&mut self, t: TaskId)
+    pub fn verif_retain_where(&mut self, Ghost(keep): Ghost<spec_fn(TaskId) -> bool>)
         ensures
-            forall|k: K| #[trigger] final(self)@.contains_key(k) <==> (old(self)@.contains_key(k) && old(self)@[k] != t),
+            forall|k: K| #[trigger] final(self)@.contains_key(k) <==> (old(self)@.contains_key(k) && keep(old(self)@[k])),
             forall|k: K| #[trigger] final(self)@.contains_key(k) ==> final(self)@[k] == old(self)@[k],
+            forall|k: K| #[trigger] old(self)@.contains_key(k) && keep(old(self)@[k]) ==> final(self)@.contains_key(k),
     { unimplemented!() }
 }
 
@@ -152,7 +156,7 @@ impl DefaultGatherer {
 impl CommandHub {
     //@fn bin/src/command/server.rs CommandHub::handle_finishing_task
     //@  subst "task\n            .job\n            .client_token()\n            .and_then(|token| self.clients.get_mut(&token))" => "verif_lookup_client(task.job.client_token(), &mut self.clients)"
-    //@  subst "self.in_flight\n            .retain(|_, in_flight_task_id| *in_flight_task_id != task_id)" => "self.server.in_flight.verif_retain_ne(task_id)"
+    //@  resubst "self\\.in_flight\\s*\\.retain\\(\\|_, in_flight_task_id\\| \\*in_flight_task_id ([!=<>]=?|==) task_id\\)" => "self.server.in_flight.verif_retain_where(Ghost(|verif_v: TaskId| verif_v \\1 task_id))"
     //@  drop_dassert 0 iterator adaptor values().all(..); its content is the [in-flight-purged] clause
     //@  ensures
     //@    final(self).server.finish_log() == old(self).server.finish_log().push(timed_out),            // [handler-called-once-with-the-flag-received]
